@@ -331,3 +331,30 @@ def expected_bo_no(dec, bo_start=0):
                 out[n] = (bo, i + 1)
         bo += 1
     return out, bo
+
+
+# ------------------------------------------------------------------------------------------
+# independent GFA text parser
+
+
+def parse_gfa_text(text):
+    """Returns (segments: {id: (seq, [tags])}, s_order: [ids], links: [(canon (a,oa,b,ob), overlap, tuple(tags))],
+    kinds: sequence of 'S'/'L' in file order)."""
+    segs = {}
+    s_order = []
+    links = []
+    kinds = []
+    for line in text.split("\n"):
+        if not line:
+            continue
+        f = line.split("\t")
+        if f[0] == "S":
+            if f[1] in segs:
+                raise ValueError("segment %s declared twice" % f[1])
+            segs[f[1]] = (f[2], f[3:])
+            s_order.append(f[1])
+            kinds.append("S")
+        elif f[0] == "L":
+            links.append((canon_link(f[1], f[2], f[3], f[4]), f[5], tuple(f[6:])))
+            kinds.append("L")
+    return segs, s_order, links, kinds
